@@ -81,6 +81,16 @@ pub struct GatherPlan {
     /// vectors: an implementation may walk many children in several steps)
     #[serde(default)]
     pub stable: usize,
+    /// the custom collector fills a second value slot of another kind on every sample AFTER the one its
+    /// family declares (hand-built samples may carry more than one value message)
+    #[serde(default)]
+    pub custom_extra_values: bool,
+    /// fault injection: after the content is registered, a two-descriptor collector that repeats one
+    /// registered descriptor (as another kind) is first unregistered (refused: it was never
+    /// registered) and then registered (must be refused: equal descriptor); the refused calls must
+    /// leave the registry as it was
+    #[serde(default)]
+    pub bundle_fault: bool,
 }
 
 const BOUNDS: [f64; 2] = [4.0, 64.0];
@@ -203,7 +213,7 @@ pub fn gen_plan(seed: u64, mixed_kinds: bool) -> GatherPlan {
             prelude.push(t);
         }
     }
-    GatherPlan { env, prefix, common, metrics, orders, hash_seeds, concurrent_gather: focus || r.chance(30), prelude, custom: vec![], poison: r.chance(15), custom_type_unset: false, stable }
+    GatherPlan { env, prefix, common, metrics, orders, hash_seeds, concurrent_gather: focus || r.chance(30), prelude, custom: vec![], poison: r.chance(15), custom_type_unset: false, stable, custom_extra_values: false, bundle_fault: r.chance(15) }
 }
 
 fn hist_model(v: u32) -> compat::PHist {
@@ -354,6 +364,7 @@ pub struct CustomCollector {
     descs: Vec<prometheus::core::Desc>,
     fams: Vec<PFamily>,
     type_unset: bool,
+    pub extra_values: bool,
 }
 impl CustomCollector {
     pub fn new(fams: &[PFamily], type_unset: bool) -> std::result::Result<CustomCollector, String> {
@@ -361,7 +372,7 @@ impl CustomCollector {
         for f in fams {
             descs.push(prometheus::core::Desc::new(f.name.clone().unwrap_or_default(), "custom".into(), vec![], HashMap::new()).map_err(|e| e.to_string())?);
         }
-        Ok(CustomCollector { descs, fams: fams.to_vec(), type_unset })
+        Ok(CustomCollector { descs, fams: fams.to_vec(), type_unset, extra_values: false })
     }
 }
 impl prometheus::core::Collector for CustomCollector {
@@ -372,7 +383,25 @@ impl prometheus::core::Collector for CustomCollector {
         self.fams
             .iter()
             .map(|f| {
-                let mf = compat::to_proto(f);
+                let mut mf = compat::to_proto(f);
+                if self.extra_values {
+                    let mut ms = mf.get_metric().to_vec();
+                    for m in ms.iter_mut() {
+                        match f.typ {
+                            PType::Counter | PType::Histogram => {
+                                let mut g = proto::Gauge::default();
+                                g.set_value(7.25);
+                                m.set_gauge(g);
+                            }
+                            _ => {
+                                let mut c = proto::Counter::default();
+                                c.set_value(42.5);
+                                m.set_counter(c);
+                            }
+                        }
+                    }
+                    mf.set_metric(ms);
+                }
                 if self.type_unset && f.typ == PType::Counter {
                     // as a collector written by hand may do: name, help and samples, no set_field_type
                     let mut bare = proto::MetricFamily::default();
@@ -385,6 +414,38 @@ impl prometheus::core::Collector for CustomCollector {
                 }
             })
             .collect()
+    }
+}
+
+/// Two metrics behind one collector (two descriptors).
+#[derive(Clone)]
+struct Bundle {
+    g: Option<IntGauge>,
+    c: Option<IntCounter>,
+    aux: IntCounter,
+}
+impl prometheus::core::Collector for Bundle {
+    fn desc(&self) -> Vec<&prometheus::core::Desc> {
+        let mut d: Vec<&prometheus::core::Desc> = vec![];
+        if let Some(g) = &self.g {
+            d.extend(g.desc());
+        }
+        if let Some(c) = &self.c {
+            d.extend(c.desc());
+        }
+        d.extend(self.aux.desc());
+        d
+    }
+    fn collect(&self) -> Vec<proto::MetricFamily> {
+        let mut f = vec![];
+        if let Some(g) = &self.g {
+            f.extend(g.collect());
+        }
+        if let Some(c) = &self.c {
+            f.extend(c.collect());
+        }
+        f.extend(self.aux.collect());
+        f
     }
 }
 
@@ -481,12 +542,40 @@ pub fn run_replicas(plan: &GatherPlan, mode: Mode) -> (crate::engine::RunResult,
             }
             if !plan.custom.is_empty() {
                 match CustomCollector::new(&plan.custom, plan.custom_type_unset) {
-                    Ok(c) => {
+                    Ok(mut c) => {
+                        c.extra_values = plan.custom_extra_values;
                         if let Err(e) = reg.register(Box::new(c)) {
                             errors.push(format!("register custom collector: {}", e));
                         }
                     }
                     Err(e) => errors.push(format!("custom collector: {}", e)),
+                }
+            }
+            if plan.bundle_fault {
+                if let Some(m0) = plan.metrics.iter().find(|m| !m.kind.is_vec() && m.kind != MK::Pulling && m.kind != MK::Histogram) {
+                    let mut consts = HashMap::new();
+                    for (k, v) in &m0.consts {
+                        consts.insert(k.clone(), v.clone());
+                    }
+                    let o = Opts::new(m0.name.clone(), m0.help.clone()).const_labels(consts);
+                    let is_counter = m0.kind.ptype() == PType::Counter;
+                    let b = Bundle {
+                        g: if is_counter { IntGauge::with_opts(o.clone()).ok() } else { None },
+                        c: if is_counter { None } else { IntCounter::with_opts(o.clone()).ok() },
+                        aux: IntCounter::new("zz_aux", "aux").unwrap(),
+                    };
+                    if let Some(g) = &b.g {
+                        g.set(7_700_123);
+                    }
+                    if let Some(c) = &b.c {
+                        c.inc_by(7_700_123);
+                    }
+                    if reg.unregister(Box::new(b.clone())).is_ok() {
+                        errors.push(format!("unregister of a never-registered two-descriptor collector repeating {:?} succeeded", m0.name));
+                    }
+                    if reg.register(Box::new(b.clone())).is_ok() {
+                        errors.push(format!("a two-descriptor collector repeating the registered descriptor of {:?} was admitted after its refused unregister", m0.name));
+                    }
                 }
             }
             if plan.poison {
